@@ -10,6 +10,10 @@ with reopen points anywhere.
 -/
 import SwimVerif.Proofs.Stores
 import SwimVerif.Proofs.StoresHandover
+import SwimVerif.Proofs.StoresNeverLost
+import SwimVerif.Proofs.StoresCrash
+import SwimVerif.Proofs.StoresCrashRun
+import SwimVerif.Proofs.StoresAlloc
 
 set_option linter.unusedVariables false
 namespace SwimVerif.Store
@@ -160,15 +164,38 @@ theorem C13_inmem_handover_all_sequences (ops : List Op) :
 example : aget (InMem.run InMem.init [.opn 0 0 [47, 97], .opn 1 0 [47, 97], .opn 2 0 [47, 98], .drp 0, .poll 1]).slots 1 =
     some (.live 0 [47, 97] {}) := by decide
 
-/-- Not proved (statement only): with the FC13a fix no state is ever lost — an entry marked in use always has a
-holder (a running instance, or a pending open that owns the handed-over state). Checked on all choreographies of three
-handles up to depth 6 and on the random traces instead. -/
-def C13_inmem_state_never_lost_open : Prop :=
+/-- **No state is ever lost** (with the FC13a fix), every op sequence: an entry marked in use always has a holder — a
+running instance, or a pending open whose channel already carries the handed-over state.  (Invariant `LInv` in
+`Proofs/StoresNeverLost.lean`: `HInv` + "every live oneshot channel is owned by the pending open waiting on it" +
+this statement; before the fix the step `drp` of a pending open with a full channel broke it.) -/
+theorem C13_inmem_state_never_lost :
   ∀ (ops : List Op) (p : Nat) (uri : Bytes),
     InMem.isInUse (aget (InMem.run InMem.init ops).nodes (p, uri)) = true →
     (∃ a st, aget (InMem.run InMem.init ops).slots a = some (.live p uri st)) ∨
     (∃ a c st, aget (InMem.run InMem.init ops).slots a = some (.waiting p uri c) ∧
-      aget (InMem.run InMem.init ops).chans c = some (.full st))
+      aget (InMem.run InMem.init ops).chans c = some (.full st)) :=
+  fun ops p uri h => (InMem.linv_run ops InMem.init InMem.linv_init).l p uri h
+
+/-- Non-vacuity: after `open 0; id; put; open 1; drop 0` the entry is in use and its only holder is the pending
+open in slot 1, whose channel is full; after the further `drop 1` (cancelled open) the entry is idle again. -/
+example :
+    let s := InMem.run InMem.init [.opn 0 0 [47, 97], .data 0 (.idFor [99]), .data 0 (.put 0 [170]),
+                                   .opn 1 0 [47, 97], .drp 0]
+    InMem.isInUse (aget s.nodes (0, [47, 97])) = true ∧ aget s.slots 0 = none ∧
+    aget s.slots 1 = some (.waiting 0 [47, 97] 0) ∧
+    aget s.chans 0 = some (.full { ids := [([99], 0)], counter := 1, values := [(0, [170])] }) ∧
+    InMem.isInUse (aget (InMem.step s (.drp 1)).1.nodes (0, [47, 97])) = false := by decide
+
+/-- Consequence: a URI whose entry is in use can always make progress — there is a slot whose `drop` (running
+instance) or `poll` (pending open owning the state) is accepted; the URI is never wedged. -/
+theorem C13_inmem_never_wedged (ops : List Op) (p : Nat) (uri : Bytes)
+    (h : InMem.isInUse (aget (InMem.run InMem.init ops).nodes (p, uri)) = true) :
+    (∃ a, (InMem.step (InMem.run InMem.init ops) (.drp a)).2 = .ok ∧
+      ∃ st, aget (InMem.run InMem.init ops).slots a = some (.live p uri st)) ∨
+    (∃ a, (InMem.step (InMem.run InMem.init ops) (.poll a)).2 = .ready) := by
+  rcases C13_inmem_state_never_lost ops p uri h with ⟨a, st, ha⟩ | ⟨a, c, st, ha, hc⟩
+  · exact Or.inl ⟨a, by simp [InMem.step, ha], st, ha⟩
+  · exact Or.inr ⟨a, by simp [InMem.step, ha, InMem.pollSlot, hc]⟩
 
 /-- A pending open that already received the state and is then cancelled (dropped) returns the state to the plane:
 the next open completes at once with exactly that state (the code after the FC13a fix; before it the state was lost
@@ -299,11 +326,200 @@ theorem C13_name_before_counter_would_collide :
     let crashed : Rocks.Plane := { lanes := [([108, 97, 110, 101, 47, 47, 97, 47, 120], 1)], counter := none }
     (Rocks.planeStep (Rocks.openPlane crashed) [47, 97] (.idFor [121])).2 = .id 1 := by decide
 
-/-- Support statement for the SIGKILL exploration (not provable here: RocksDB's WAL is trusted): the reopened
-database equals the fold of the acknowledged ops, optionally plus the one in flight. -/
-def C13_crash_acknowledged_prefix_open : Prop :=
+/-! ### crash cuts (SIGKILL at any moment)
+
+Trusted, not modelled: RocksDB's WAL — a single write is atomic, durable once returned, and writes become durable in
+program order.  What is proved is everything above that: which states the cuts of an op in flight can leave
+(`Rocks.crashCuts`, `Proofs/StoresCrash.lean`) and what the reopened store then is. -/
+
+/-- The support statement for the SIGKILL exploration as it was first written: "the reopened database equals the fold
+of the acknowledged ops, optionally plus the one in flight". -/
+def C13_crash_acknowledged_prefix : Prop :=
   ∀ (acked : List Op) (inflight : Op) (reopened : Rocks.St),
     Rocks.absSt reopened = (Rocks.srunOut (Rocks.absSt Rocks.init) acked).1 ∨
     Rocks.absSt reopened = (Rocks.srunOut (Rocks.absSt Rocks.init) (acked ++ [inflight])).1
+
+/-- As written it is false for a trivial reason: nothing ties `reopened` to the run (any database qualifies). -/
+theorem C13_crash_acknowledged_prefix_fails : ¬ C13_crash_acknowledged_prefix := by
+  intro h
+  rcases h [] .reopen { p0 := { lanes := [([1], 5)] } } with e | e
+  · exact absurd (congrArg (fun x => x.p0.ids [1]) e) (by decide)
+  · exact absurd (congrArg (fun x => x.p0.ids [1]) e) (by decide)
+
+/-- The intended reading: `reopened` is the recovery (`reopen`) of a crash cut — the state after a prefix of the
+RocksDB writes of the op in flight, on top of the acknowledged ops — and equals the specification's fold of the
+acknowledged ops, optionally plus the op in flight (handles forgotten). -/
+def C13_crash_acknowledged_prefix_cuts : Prop :=
+  ∀ (acked : List Op) (inflight : Op), (∀ o ∈ acked, Rocks.Op.idOk o) → Rocks.Op.idOk inflight →
+    ∀ crashed ∈ Rocks.crashCuts (Rocks.runOut Rocks.init acked).1 inflight,
+      Rocks.absSt (Rocks.recover crashed) = (Rocks.srunOut (Rocks.absSt Rocks.init) (acked ++ [.reopen])).1 ∨
+      Rocks.absSt (Rocks.recover crashed) = (Rocks.srunOut (Rocks.absSt Rocks.init) (acked ++ [inflight, .reopen])).1
+
+/-- This is false too, and for a real reason: `KeyStore::id_for` of a new name issues two separate writes
+(`merge_keyspace(counter)` then `put_keyspace(name)`); killed in between, the counter is advanced and the name is not
+stored — neither the state before `id_for` nor the state after it.  Witness: `open 0 0 /a` acknowledged,
+`id 0 "c"` in flight. -/
+theorem C13_crash_acknowledged_prefix_cuts_fails : ¬ C13_crash_acknowledged_prefix_cuts := by
+  intro h
+  have hm : Rocks.setPlane (Rocks.runOut Rocks.init [.opn 0 0 [47, 97]]).1 0
+        (Rocks.midIdFor (Rocks.getPlane (Rocks.runOut Rocks.init [.opn 0 0 [47, 97]]).1 0)) ∈
+      Rocks.crashCuts (Rocks.runOut Rocks.init [.opn 0 0 [47, 97]]).1 (.data 0 (.idFor [99])) :=
+    List.mem_cons_of_mem _ List.mem_cons_self
+  rcases h [.opn 0 0 [47, 97]] (.data 0 (.idFor [99])) (by intro o ho; simp at ho; subst ho; trivial) trivial _ hm with e | e
+  · exact absurd (congrArg (fun x => x.p0.next) e) (by decide)
+  · exact absurd (congrArg (fun x => x.p0.ids (Rocks.laneKey [47, 97] [99])) e) (by decide)
+
+/-- **Crash cuts, what does hold** (all acknowledged op sequences with reopen points, ids `< 2^56`, any op in flight,
+any cut): the reopened store satisfies the store invariant (so every refinement theorem above applies to whatever
+runs after the crash) and is, in the specification,
+* the fold of the acknowledged ops, or
+* the fold of the acknowledged ops plus the op in flight, or
+* — only when the op in flight is `id_for` of a name not yet stored — the fold of the acknowledged ops with one id
+  of that plane burnt (`next + 1`, nothing else changed). -/
+theorem C13_crash_acknowledged_prefix_partial (acked : List Op) (inflight : Op)
+    (hok : ∀ o ∈ acked, Rocks.Op.idOk o) (hok' : Rocks.Op.idOk inflight) (crashed : Rocks.St)
+    (hc : crashed ∈ Rocks.crashCuts (Rocks.runOut Rocks.init acked).1 inflight) :
+    Rocks.StInv (Rocks.recover crashed) ∧
+    (Rocks.absSt (Rocks.recover crashed) = (Rocks.srunOut (Rocks.absSt Rocks.init) (acked ++ [.reopen])).1 ∨
+     Rocks.absSt (Rocks.recover crashed) = (Rocks.srunOut (Rocks.absSt Rocks.init) (acked ++ [inflight, .reopen])).1 ∨
+     ∃ slot p uri name, inflight = .data slot (.idFor name) ∧
+       aget (Rocks.srunOut (Rocks.absSt Rocks.init) acked).1.slots slot = some (p, uri) ∧
+       (Rocks.sget (Rocks.srunOut (Rocks.absSt Rocks.init) acked).1 p).ids (Rocks.laneKey uri name) = none ∧
+       Rocks.absSt (Rocks.recover crashed) =
+         (Rocks.sstep (Rocks.sset (Rocks.srunOut (Rocks.absSt Rocks.init) acked).1 p
+           (Rocks.burn (Rocks.sget (Rocks.srunOut (Rocks.absSt Rocks.init) acked).1 p))) .reopen).1) := by
+  have r := Rocks.run_refines acked Rocks.init Rocks.stInv_init hok
+  obtain ⟨h1, h2⟩ := Rocks.crashCuts_cases _ r.1 inflight hok' crashed hc
+  refine ⟨h1, ?_⟩
+  rw [Rocks.srunOut_append, Rocks.srunOut_append, Rocks.srunOut_single, Rocks.srunOut_two, ← r.2.1]
+  rcases h2 with e | e | ⟨slot, p, uri, name, e1, e2, e3, e4⟩
+  · exact Or.inl e
+  · exact Or.inr (Or.inl e)
+  · exact Or.inr (Or.inr ⟨slot, p, uri, name, e1, e2, e3, e4⟩)
+
+/-- Non-vacuity (third shape): the mid-`id_for` cut after `open; id "b"; put 1`, reopened, has counter 2 and one stored
+name; the next `id_for` of a new name then returns 3 — id 2 is burnt, the value of id 1 is intact. -/
+example :
+    let s := (Rocks.runOut Rocks.init [.opn 0 0 [47, 97], .data 0 (.idFor [98]), .data 0 (.put 1 [170])]).1
+    let crashed := Rocks.setPlane s 0 (Rocks.midIdFor (Rocks.getPlane s 0))
+    crashed ∈ Rocks.crashCuts s (.data 0 (.idFor [99])) ∧
+    (Rocks.runOut (Rocks.recover crashed) [.opn 0 0 [47, 97], .data 0 (.idFor [99]), .data 0 (.idFor [98]),
+      .data 0 (.get 1)]).2 = [.ready, .id 3, .id 1, .some [170]] :=
+  ⟨List.mem_cons_of_mem _ List.mem_cons_self, by decide⟩
+
+/-- **Acknowledged prefix, observably**: whatever a client can read back from the reopened store — names ↦ ids,
+values, maps — is exactly that of the acknowledged ops, or of the acknowledged ops plus the one in flight; and id
+allocation after the crash is still fresh and collision free (all stored ids are `≤` the reloaded counter, no id
+belongs to two stored names), on both planes. -/
+theorem C13_crash_observable_acked_or_inflight (acked : List Op) (inflight : Op)
+    (hok : ∀ o ∈ acked, Rocks.Op.idOk o) (hok' : Rocks.Op.idOk inflight) (crashed : Rocks.St)
+    (hc : crashed ∈ Rocks.crashCuts (Rocks.runOut Rocks.init acked).1 inflight) :
+    (Rocks.SameData (Rocks.absSt (Rocks.recover crashed))
+        (Rocks.srunOut (Rocks.absSt Rocks.init) (acked ++ [.reopen])).1 ∨
+     Rocks.SameData (Rocks.absSt (Rocks.recover crashed))
+        (Rocks.srunOut (Rocks.absSt Rocks.init) (acked ++ [inflight, .reopen])).1) ∧
+    IdsInv 1 (Rocks.absSt (Rocks.recover crashed)).p0 ∧ IdsInv 1 (Rocks.absSt (Rocks.recover crashed)).p1 := by
+  have hi0 : IdsInv 1 (Rocks.abs {}) :=
+    ⟨by intro nm n h; simp [Rocks.abs, aget] at h, by intro a b n h; simp [Rocks.abs, aget] at h⟩
+  obtain ⟨_, h⟩ := C13_crash_acknowledged_prefix_partial acked inflight hok hok' crashed hc
+  rcases h with e | e | ⟨slot, p, uri, name, e1, e2, e3, e4⟩
+  · rw [e]
+    have i := Rocks.ids_srun (acked ++ [.reopen]) (Rocks.absSt Rocks.init) hi0 hi0
+    exact ⟨Or.inl (Rocks.sameData_refl _), i.1, i.2.1⟩
+  · rw [e]
+    have i := Rocks.ids_srun (acked ++ [inflight, .reopen]) (Rocks.absSt Rocks.init) hi0 hi0
+    exact ⟨Or.inr (Rocks.sameData_refl _), i.1, i.2.1⟩
+  · rw [e4, Rocks.srunOut_append, Rocks.srunOut_single]
+    have i := Rocks.ids_srun acked (Rocks.absSt Rocks.init) hi0 hi0
+    refine ⟨Or.inl (Rocks.sameData_burn _ p), ?_⟩
+    by_cases hp : p = 0
+    · simp only [Rocks.sstep, Rocks.sset, Rocks.sget, hp, ↓reduceIte]
+      exact ⟨Rocks.idsInv_burn i.1, i.2.1⟩
+    · simp only [Rocks.sstep, Rocks.sset, Rocks.sget, hp, ↓reduceIte]
+      exact ⟨i.1, Rocks.idsInv_burn i.2.1⟩
+
+/-- Non-vacuity (an `update_map` in flight, both cuts): reopened either without or with the entry. -/
+example :
+    let s := (Rocks.runOut Rocks.init [.opn 0 0 [47, 97], .data 0 (.idFor [98]), .data 0 (.upd 1 [0] [1])]).1
+    Rocks.crashCuts s (.data 0 (.upd 1 [255] [2])) = [s, (Rocks.step s (.data 0 (.upd 1 [255] [2]))).1] ∧
+    (Rocks.runOut (Rocks.recover s) [.opn 3 0 [47, 98], .data 3 (.read 1)]).2 = [.ready, .entries [([0], [1])]] ∧
+    (Rocks.runOut (Rocks.recover (Rocks.step s (.data 0 (.upd 1 [255] [2]))).1) [.opn 3 0 [47, 98], .data 3 (.read 1)]).2 =
+      [.ready, .entries [([0], [1]), ([255], [2])]] := ⟨rfl, by decide, by decide⟩
+
+/-! ### histories with any number of kills -/
+
+/-- **refines_spec with kills and reopen points anywhere** (T2): every history of the RocksDB store model made of
+acknowledged ops (opens, drops, data ops with ids `< 2^56`, `reopen`) and kills — each at any cut of any op in flight,
+any number of times — is a history of the specification in which a kill forgets the handles and leaves the state
+before the op in flight, the state after it, or (for `id_for` of a new name only) the state before it with one id
+burnt; the acknowledged results agree op for op. -/
+theorem C13_rocks_refines_spec_with_crashes (evs : List Rocks.CEv) (hok : ∀ e ∈ evs, Rocks.CEv.idOk e) :
+    ∃ souts, Rocks.SReach (Rocks.absSt Rocks.init) evs (Rocks.absSt (Rocks.crunOut Rocks.init evs).1) souts ∧
+      OutsRel (Rocks.crunOut Rocks.init evs).2 souts :=
+  (Rocks.crun_refines evs Rocks.init Rocks.stInv_init hok).2
+
+/-- Non-vacuity: a kill inside `id_for "c"` (cut 1: counter merged, name not stored), a kill after the write of an
+`update_map` (cut 1) and a kill before the write of a `put_value` (cut 0), with ops in between. -/
+example : (Rocks.crunOut Rocks.init [.op (.opn 0 0 [47, 97]), .op (.data 0 (.idFor [98])), .op (.data 0 (.put 1 [170])),
+      .crash (.data 0 (.idFor [99])) 1,
+      .op (.opn 0 0 [47, 97]), .op (.data 0 (.idFor [99])), .crash (.data 0 (.upd 3 [7] [8])) 1,
+      .op (.opn 1 0 [47, 98]), .crash (.data 1 (.put 1 [187])) 0,
+      .op (.opn 2 0 [47, 97]), .op (.data 2 (.idFor [98])), .op (.data 2 (.idFor [99])), .op (.data 2 (.get 1)),
+      .op (.data 2 (.read 3))]).2 =
+    [.ready, .id 1, .ok, .ready, .id 3, .ready, .ready, .id 1, .id 3, .some [170], .entries [([7], [8])]] := by decide
+
+/-- **id_stable / id_injective on stored names, across kills**: in every such history, per plane, two different
+stored names never share an id, and a name keeps its id through all later ops, kills and reopens. -/
+theorem C13_rocks_ids_stable_injective_across_crashes (evs evs' : List Rocks.CEv)
+    (hok : ∀ e ∈ evs, Rocks.CEv.idOk e) (hok' : ∀ e ∈ evs', Rocks.CEv.idOk e) :
+    let s := (Rocks.crunOut Rocks.init evs).1
+    let s' := (Rocks.crunOut s evs').1
+    (∀ a b n, aget s.p0.lanes a = some n → aget s.p0.lanes b = some n → a = b) ∧
+    (∀ a b n, aget s.p1.lanes a = some n → aget s.p1.lanes b = some n → a = b) ∧
+    (∀ nm n, aget s.p0.lanes nm = some n → aget s'.p0.lanes nm = some n) ∧
+    (∀ nm n, aget s.p1.lanes nm = some n → aget s'.p1.lanes nm = some n) := by
+  intro s s'
+  have hi0 : IdsInv 1 (Rocks.abs {}) :=
+    ⟨by intro nm n h; simp [Rocks.abs, aget] at h, by intro a b n h; simp [Rocks.abs, aget] at h⟩
+  obtain ⟨r1, souts, r2, _⟩ := Rocks.crun_refines evs Rocks.init Rocks.stInv_init hok
+  obtain ⟨i0, i1, _, _⟩ := Rocks.ids_sreach r2 hi0 hi0
+  obtain ⟨_, souts', r3, _⟩ := Rocks.crun_refines evs' s r1 hok'
+  obtain ⟨_, _, j0, j1⟩ := Rocks.ids_sreach r3 i0 i1
+  exact ⟨fun a b n ha hb => i0.inj a b n ha hb, fun a b n ha hb => i1.inj a b n ha hb,
+    fun nm n h => j0 nm n h, fun nm n h => j1 nm n h⟩
+
+/-- **Every acknowledged operation is still present after a kill**: whatever a client can read back (names ↦ ids,
+values, maps) after a kill is that of the state before the op in flight — the fold of everything acknowledged — or
+of the state after it. -/
+theorem C13_crash_keeps_acknowledged_data (s s' : Rocks.SSt) (inflight : Op) (h : Rocks.SCrash s inflight s') :
+    Rocks.SameData s' (Rocks.sstep s .reopen).1 ∨ Rocks.SameData s' (Rocks.sstep (Rocks.sstep s inflight).1 .reopen).1 :=
+  Rocks.scrash_sameData h
+
+example : Rocks.SCrash (Rocks.absSt (Rocks.runOut Rocks.init [.opn 0 0 [47, 97]]).1) (.data 0 (.idFor [99]))
+    (Rocks.sstep (Rocks.sset (Rocks.absSt (Rocks.runOut Rocks.init [.opn 0 0 [47, 97]]).1) 0
+      (Rocks.burn (Rocks.sget (Rocks.absSt (Rocks.runOut Rocks.init [.opn 0 0 [47, 97]]).1) 0))) .reopen).1 :=
+  .burnt 0 0 [47, 97] [99] rfl (by decide) (by decide)
+
+/-- **The `2^56` hypothesis is met by every client history** (T2): a history (acknowledged ops, kills, reopens) in
+which every `get/put/delete/update/remove/clear/read_map` goes through an open handle with an id that `id_for`
+handed out on that plane (it is stored in the plane's name table at that moment), and which has fewer than `2^56`
+events, satisfies `id < 2^56` at every event — the counter grows by at most one per event, a kill inside `id_for`
+included — and therefore refines the specification. -/
+theorem C13_rocks_refines_spec_allocated_ids (evs : List Rocks.CEv) (hlen : evs.length < id56)
+    (ha : Rocks.histAlloc Rocks.init evs) :
+    (∀ e ∈ evs, Rocks.CEv.idOk e) ∧
+    ∃ souts, Rocks.SReach (Rocks.absSt Rocks.init) evs (Rocks.absSt (Rocks.crunOut Rocks.init evs).1) souts ∧
+      OutsRel (Rocks.crunOut Rocks.init evs).2 souts := by
+  have hi0 : IdsInv 1 (Rocks.abs {}) :=
+    ⟨by intro nm n h; simp [Rocks.abs, aget] at h, by intro a b n h; simp [Rocks.abs, aget] at h⟩
+  have hok := Rocks.histAlloc_idOk evs Rocks.init 0 Rocks.stInv_init hi0 hi0 (Nat.le_refl _) (Nat.le_refl _)
+    (by omega) ha
+  exact ⟨hok, C13_rocks_refines_spec_with_crashes evs hok⟩
+
+example : Rocks.histAlloc Rocks.init [.op (.opn 0 0 [47, 97]), .op (.data 0 (.idFor [98])), .op (.data 0 (.put 1 [170])),
+    .crash (.data 0 (.upd 1 [7] [8])) 1, .op (.opn 0 0 [47, 97]), .op (.data 0 (.read 1))] := by
+  refine And.intro trivial (And.intro (fun id h => by cases h) (And.intro ?_ (And.intro ?_
+    (And.intro trivial (And.intro ?_ trivial))))) <;>
+    (intro id h; cases h; exact ⟨0, [47, 97], Rocks.laneKey [47, 97] [98], by decide, by decide⟩)
 
 end SwimVerif.Store
